@@ -543,7 +543,7 @@ func c06Leafs() []caldav.CompFilter {
 
 func c06Mid(full bool) []caldav.CompFilter {
 	var out []caldav.CompFilter
-	props := c06PropFilters(full)
+	props := c06PropFilters(true)
 	leafs := c06Leafs()
 	hit := [2]time.Time{c06T0.Add(3 * time.Hour), c06T0.Add(5 * time.Hour)}   // overlaps e1/ea, not e2
 	miss := [2]time.Time{c06T0.Add(20 * time.Hour), c06T0.Add(22 * time.Hour)} // overlaps nothing
